@@ -347,6 +347,8 @@ func genReq(t *rapid.T, label string, intact *bool) Req {
 				{"_id is not a uuid", func(b map[string]any) { pt(b)["_id"] = "not-a-uuid" }},
 				{"_id is a number", func(b map[string]any) { pt(b)["_id"] = 7.0 }},
 				{"no points", func(b map[string]any) { b["points"] = []any{} }},
+				{"a point that is null", func(b map[string]any) { b["points"] = []any{nil} }},
+				{"a point that is null among others", func(b map[string]any) { b["points"] = append(b["points"].([]any), nil) }},
 				{"point larger than the plan's maximum point size", func(b map[string]any) { pt(b)["blob"] = strings.Repeat("x", 600) }},
 				{"point larger than the maximum point size of the request's plan SMALL (not of the plan the collection was created under)", func(b map[string]any) {
 					pt(b)["blob"] = strings.Repeat("x", 200)
